@@ -51,6 +51,11 @@ def observe_func(node, fin, rng=None, max_mats=40):
     finally:
         signal.alarm(0)
         signal.signal(signal.SIGALRM, old_h)
+    return obs_of_result(res, rng, max_mats), res
+
+
+def obs_of_result(res, rng=None, max_mats=40):
+    """canonical observation of a FuncResult"""
     obs = {
         'name': res.name, 'infinite': bool(res.infinite), 'variables': list(res.variables),
         'index': res.index, 'has_relation': res.relation is not None,
@@ -78,7 +83,29 @@ def observe_func(node, fin, rng=None, max_mats=40):
         if res.bound is not None:
             obs['bound'] = bound_triples(res.bound, res.variables)
             obs['bound_keys'] = list(res.bound.bound_dict.keys())
-    return obs, res
+    return obs
+
+
+def with_time_limit(fn):
+    """run fn() under the analysis time limit; returns (value, None) or (None, {'raised': ...})"""
+    import signal
+
+    class _Timeout(BaseException):
+        pass
+
+    def _alarm(sig, frm):
+        raise _Timeout()
+    old_h = signal.signal(signal.SIGALRM, _alarm)
+    signal.alarm(TIME_LIMIT_S)
+    try:
+        return fn(), None
+    except _Timeout:
+        return None, {'raised': 'Timeout'}
+    except Exception as e:
+        return None, {'raised': type(e).__name__, 'msg': str(e)[:200]}
+    finally:
+        signal.alarm(0)
+        signal.signal(signal.SIGALRM, old_h)
 
 
 def prepare(fnode, strict):
